@@ -366,7 +366,7 @@ def curve_callback(vk, cfg):
     vk.canary_bool("x==last-boundary-point", not np.array_equal(job.x[0], Fld.values[5]))
 
 
-@contract("C09", "material_curves", configs=[dict(curve=c, statevars=s) for c in ("uniaxial", "planar", "biaxial") for s in (False, True)] + [dict(curve="evaluate", statevars=True)] + [dict(curve=c, statevars=False, solver=m) for c in ("uniaxial", "planar", "biaxial") for m in ("first-fails", "both-fail")])
+@contract("C09", "material_curves", configs=[dict(curve=c, statevars=s) for c in ("uniaxial", "planar", "biaxial") for s in (False, True)] + [dict(curve="evaluate", statevars=True)] + [dict(curve=c, statevars=False, solver=m) for c in ("uniaxial", "planar", "biaxial") for m in ("first-fails", "both-fail")] + [dict(curve=c, statevars=False, stretches="argument") for c in ("uniaxial", "planar", "biaxial")])
 def material_curves(vk, cfg):
     """ViewMaterial: each curve evaluates the real material on F = diag(l1, l2, l3) of the documented
     kinematics with the lateral stretch returned by the root solver for P33 = 0, and returns P11; with state
@@ -460,6 +460,12 @@ def material_curves(vk, cfg):
     try:
         z0 = ring.symarray("z0", (1, 1, 1)) if cfg["statevars"] else None
         vm = ViewMaterial(umat, ux=lam, ps=lam, bx=lam, statevars=z0)
+        call_kw = {}
+        if cfg.get("stretches") == "argument":
+            # stretches handed to the curve method take precedence over those of the constructor
+            other = ring.lift(np.array([1.1, 1.2]))
+            vm = ViewMaterial(umat, ux=other, ps=other, bx=other, statevars=z0)
+            call_kw = dict(stretches=lam)
         if mode == "both-fail":
             try:
                 getattr(vm, curve)()
@@ -468,7 +474,7 @@ def material_curves(vk, cfg):
                 raised = str(e)
             vk.ensures_true("both solves fail: ValueError, no curve returned", raised is not None and len(starts) == 2, f"{raised!r} after {len(starts)} solves")
             return
-        st, force, label = getattr(vm, curve)()
+        st, force, label = getattr(vm, curve)(**call_kw)
     finally:
         SO.root = real_root
     if mode == "first-fails":
